@@ -234,7 +234,7 @@ func genLine(g kit.G, withMarker bool) string {
 		switch g.Int(0, 5, "lineshape") {
 		case 0:
 			// long run in front of and behind the match: LimitPre / LimitPost cut through payloads
-			p := genPayload(g, srcContent, "pre")
+			p := genPayload(g, srcContext, "pre")
 			sb.WriteString(strings.Repeat(p+" ", 1+120/(len(p)+1)))
 			sb.WriteString(mark(srcContent))
 			sb.WriteString(strings.Repeat(" "+p, 1+120/(len(p)+1)))
@@ -286,7 +286,7 @@ func genRepo(g kit.G, idx int) c36Repo {
 		}
 		r.Branches = append(r.Branches, b)
 	}
-	if g.Bool(15, "subrepo") {
+	if g.Int(0, 9, "subrepo") == 6 {
 		r.Subs = append(r.Subs, c36Sub{
 			Path:    "sub",
 			Name:    kit.Text("sub/" + genPayload(g, srcSubRepo, "subname")),
@@ -326,6 +326,9 @@ func genRepo(g kit.G, idx int) c36Repo {
 			c += "\n"
 		}
 		d.Content = kit.Text(strings.ReplaceAll(c, "\x00", "\x01"))
+		if len(r.Docs) > 0 && g.Int(0, 9, "dupcontent") == 5 {
+			d.Content = r.Docs[0].Content // same checksum: "Duplicate result"
+		}
 		if g.Bool(25, "lang") {
 			d.Language = kit.Text(genPayload(g, srcLang, "lang"))
 		}
@@ -343,8 +346,8 @@ func genRepo(g kit.G, idx int) c36Repo {
 	return r
 }
 
-var numPool = []string{"", "", "1", "1", "2", "0", "-1", "100000", "9223372036854775807", "4611686018427387904", "99999999999999999999", " 5", "0x10"}
-var ctxPool = []string{"", "", "", "0", "1", "1", "2", "2", "3", "3", "5", "10", "10", "10", "11", "-1", "999999999999999999999"}
+var numPool = []string{"", "1", "2", "", "100000", "1", "0", "-1", "9223372036854775807", "3", "4611686018427387904", "99999999999999999999", " 5", "0x10"}
+var ctxPool = []string{"", "1", "2", "0", "3", "10", "5", "", "1", "10", "11", "2", "3", "-1", "10", "999999999999999999999"}
 var orderPool = []string{"", "", "name", "revname", "size", "revsize", "ram", "revram", "time", "revtime"}
 
 // quoteQuery turns text into a zoekt query atom that matches it literally.
@@ -359,7 +362,7 @@ func genReq(g kit.G, c *c36Case) c36Req {
 	repo := &c.Repos[g.Int(0, len(c.Repos)-1, "reqrepo")]
 	doc := &repo.Docs[g.Int(0, len(repo.Docs)-1, "reqdoc")]
 	param := func(ps *[]c36Param, k string, pool []string) {
-		if g.Bool(12, k+"-payload") {
+		if g.Int(0, 9, k+"-payload") == 7 { // rapid favours small values: this is rare
 			*ps = append(*ps, c36Param{kit.Text(k), kit.Text(genPayload(g, srcParam, k))})
 			return
 		}
@@ -434,7 +437,7 @@ func genReq(g kit.G, c *c36Case) c36Req {
 	case kind <= 15: // print
 		rq.Path = "/print"
 		rname := repo.Name
-		if g.Bool(10, "print-miss") {
+		if g.Int(0, 9, "print-miss") == 8 {
 			rname = kit.Text(genPayload(g, srcParam, "print-r"))
 		}
 		rq.Params = append(rq.Params, c36Param{kit.Text("r"), rname}, c36Param{kit.Text("f"), doc.Name})
@@ -997,7 +1000,7 @@ func (e *c36Env) fetch(tgt string, what string) (*pageResult, error) {
 				cls = pre
 			}
 		}
-		if os.Getenv("C36_DEBUG") != "" {
+		if cls == "other" && os.Getenv("C36_DEBUG") != "" {
 			fmt.Fprintf(os.Stderr, "418 %s: %s\n", tgt, clip(msg))
 		}
 		p.labels = append(p.labels, "error:"+cls)
